@@ -704,7 +704,11 @@ class IndividualParameters:
         :class:`.IndividualParameters`
             Individual parameters object load from the file
         """
-        df = pd.read_csv(path, dtype={"ID": IDType}).set_index("ID")
+        # IDs are read verbatim ("NA", "null", "" are valid IDs, not missing values)
+        # and floats are parsed exactly as they were written by `to_csv`
+        df = pd.read_csv(
+            path, converters={"ID": IDType}, float_precision="round_trip"
+        ).set_index("ID")
         ip = cls.from_dataframe(df)
 
         return ip
